@@ -29,7 +29,15 @@ pub struct Detached {
 }
 
 pub fn detached(status: u8) -> Detached {
-    let (props, a, b, c, d) = ActorProperties::new::<Dummy>(None);
+    detached_with_id(status, None)
+}
+
+/// `remote = Some((node, pid))` builds the properties of a remote actor (no runtime type check applies to those)
+pub fn detached_with_id(status: u8, remote: Option<(u64, u64)>) -> Detached {
+    let (props, a, b, c, d) = match remote {
+        None => ActorProperties::new::<Dummy>(None),
+        Some((node_id, pid)) => ActorProperties::new_remote::<Dummy>(None, ActorId::Remote { node_id, pid }),
+    };
     props.status.store(status, Ordering::SeqCst);
     Detached {
         props: Arc::new(props),
@@ -124,6 +132,14 @@ impl Handle {
     }
     pub fn drain(&self) -> bool {
         drain(&self.0)
+    }
+    pub fn send_right_type_checked(&self, v: u64) -> u8 {
+        match self.0.send_message::<u64>(v) {
+            Ok(()) => 0,
+            Err(MessagingErr::SendErr(_)) => 1,
+            Err(MessagingErr::InvalidActorType) => 3,
+            Err(MessagingErr::ChannelClosed) => 4,
+        }
     }
     pub fn status(&self) -> u8 {
         status(&self.0)
